@@ -1,7 +1,7 @@
 #!/bin/bash
 # usage: tools/run_all.sh [quick|thorough] [seed]   runs every registered check in turn and prints one line per check
 tier=${1:-quick}; seed=${2:-1}
-cd /verif
+cd "$(dirname "$0")/.."
 for id in $(python3 -c "import json;print(' '.join(c['property_id'] for c in json.load(open('MANIFEST.json'))['checks']))"); do
   s=$(date +%s); VERIF_SEED=$seed ./check $id --tier $tier > /tmp/runall-$id.log 2>&1; rc=$?; e=$(date +%s)
   echo "$id exit=$rc $((e-s))s $(grep -c '^KNOWN-FINDING' /tmp/runall-$id.log) known $(grep -E '^(VIOLATION|INCONCLUSIVE|NOTE)' /tmp/runall-$id.log | head -3 | tr '\n' ' ' | cut -c1-300)"
